@@ -22,7 +22,7 @@ RULE = (
     "history = list of unit kinds (SH, SH', PIC, F0, FS(cnt,start), PAD, AUX, EOS, FOREIGN) with picture numbers and optional "
     "parse-offset perturbations; strata: exhaustive (all histories SH.u1..uL over the family alphabet, correct offsets, "
     "consecutive numbers), model-guided random walks (long accepted histories), single-edit neighbours of accepted histories, "
-    "number/offset perturbation patterns, fragment (x, y) offset patterns incl. wrong offsets with the right raster index; distinct = distinct (family, history) ; histories rejected at their first unit are trivial"
+    "level-pattern (every body of length <= 4 over a reduced alphabet for the families with a real ordering pattern), number/offset perturbation patterns, fragment (x, y) offset patterns incl. wrong offsets with the right raster index; distinct = distinct (family, history) ; histories rejected at their first unit are trivial"
 )
 ASSUMPTIONS = [
     "only accept/reject is compared, never which error",
@@ -66,6 +66,13 @@ def plan(tier, seed):
         parts = 1 if tier == "quick" else 6
         for p in range(parts):
             shards.append({"shard": i, "mode": "exhaustive", "family": name, "L": L, "part": p, "parts": parts})
+            i += 1
+    # level-pattern stratum: for the families with a real ordering pattern, every body of length <= 4 (quick) / 6
+    # (thorough) over a reduced alphabet (picture, first fragment, each complete-picture fragment, padding, header)
+    # followed by end_of_sequence: pictures mixed with fragments, headers between units, ...
+    for name in names:
+        if U.FAMILIES[name]["level"]:
+            shards.append({"shard": i, "mode": "levelmix", "family": name, "L": 4 if tier == "quick" else 6})
             i += 1
     nrand = 16 if tier == "quick" else 64
     per = 650 if tier == "quick" else 40000
@@ -190,6 +197,22 @@ def cases(spec, ctx):
                     batch = []
             if batch:
                 yield {"family": spec["family"], "kinds_batch": batch, "stratum": "exhaustive"}
+        return
+    if spec["mode"] == "levelmix":
+        fam, m = fam_model(spec["family"])
+        full = "FS:%d:0" % fam.nsl
+        alpha = ["PIC", "F0", full, "PAD", "SH"]
+        if fam.nsl > 1:
+            alpha.append("FS:1:0")
+        batch = []
+        for l in range(0, spec["L"] + 1):
+            for body in itertools.product(alpha, repeat=l):
+                batch.append(["SH"] + list(body) + ["EOS"])
+                if len(batch) >= 200:
+                    yield {"family": spec["family"], "kinds_batch": batch, "stratum": "level-pattern"}
+                    batch = []
+        if batch:
+            yield {"family": spec["family"], "kinds_batch": batch, "stratum": "level-pattern"}
         return
     names = sorted(U.FAMILIES)
     n = spec["n"]
